@@ -43,7 +43,7 @@ Fam(i) ==
     [] i = 2 -> M([c3 |-> Cmd(<<"o3">>, <<"s2">>, <<>>, <<>>, <<>>, FALSE),
                    c1 |-> Cmd(<<"o1">>, <<"s1">>, <<>>, <<"o3">>, <<"o3", "h">>, TRUE),
                    c2 |-> Cmd(<<"o2">>, <<"s1">>, <<>>, <<"o3">>, <<>>, FALSE)])
-    [] i = 3 -> M([c1 |-> Cmd(<<"o1", "o2">>, <<"s1">>, <<>>, <<>>, <<>>, FALSE),
+    [] i = 3 -> M([c1 |-> [Cmd(<<"o1", "o2">>, <<"s1">>, <<>>, <<>>, <<>>, FALSE) EXCEPT !.fail = "late"],
                    c2 |-> Cmd(<<"o3">>, <<"o2">>, <<"h">>, <<>>, <<>>, FALSE)])
     [] i = 4 -> M([c1 |-> Cmd(<<"o1">>, <<"s1">>, <<>>, <<>>, <<>>, FALSE),
                    c2 |-> PhonyCmd(<<"al">>, <<"o1">>),
@@ -134,7 +134,7 @@ InBuild ==
 MCNext == Edit \/ StartBuild \/ InBuild
 MCSpec == MCInit /\ [][MCNext]_mcvars
 
-(* vacuity witnesses: each must be VIOLATED when checked as an invariant (run with -continue) *)
+(* vacuity witnesses: each must be VIOLATED when checked as an invariant (one TLC run per witness) *)
 How(h) == last.a = "Step" /\ last.how = h
 W_uptodate   == ~How("uptodate")
 W_needsrun   == ~How("needsrun")
